@@ -683,6 +683,102 @@ def part_tcp_reader(res, rng, tier, driver=None):
                                            "model": m[:300], "impl": repr(got)[:300]})
         res.traces_validated += len(model)
 
+def part_serial_reader(res, rng, tier, driver=None):
+    """pyserial's real ReaderThread.run (the reader of the threaded serial gateway) on a scripted port: reads of
+    any size and timed-out reads (b"").  Same loop shape as the TCP reader, same model (`tcpReader`)."""
+    import serial.threaded
+    n = 12 if tier == "quick" else 120
+    ops, impl = [], []
+    for _ in range(n):
+        stream = gen_stream(rng, rng.randrange(1, 30))
+        script, pos = [], 0
+        while pos < len(stream):
+            if rng.random() < 0.25:
+                script.append(b"")                      # read timed out
+                continue
+            k = rng.choice([1, 1, 2, 3, 7, 16, 64, 200])
+            script.append(stream[pos:pos + k])
+            pos += k
+        script.append(b"")
+
+        class Port:
+            """what ReaderThread.run uses of a serial port"""
+
+            def __init__(self):
+                self.left = list(script)
+                self.reads = []
+
+            @property
+            def is_open(self):
+                return bool(self.left)
+
+            @property
+            def in_waiting(self):
+                return len(self.left[0]) if self.left else 0
+
+            def read(self, size=1):
+                data = self.left.pop(0) if self.left else b""
+                if len(data) > size:                    # never more than asked for
+                    self.left.insert(0, data[size:])
+                    data = data[:size]
+                self.reads.append(data)
+                return data
+
+            def cancel_read(self):
+                pass
+
+            def close(self):
+                self.left = []
+
+        proto, lines = make_protocol("base")
+        proto.gateway.on_conn_made = None
+        proto.gateway.on_conn_lost = None
+        port = Port()
+        tail = {}
+        real_cl = proto.connection_lost
+
+        def snapshot_cl(exc, proto=proto, tail=tail, real_cl=real_cl):
+            tail.setdefault("buf", bytes(proto.buffer))
+            return real_cl(exc)
+        proto.connection_lost = snapshot_cl
+        reader = serial.threaded.ReaderThread(port, lambda proto=proto: proto)
+        reader.run()
+        got = ([a[0] if nme == "logic" and len(a) == 1 else ("?", nme, a) for nme, a in lines],
+               tail.get("buf", bytes(proto.buffer)))
+        want = spec_feed(stream)
+        res.evaluations += 1
+        res.count("serial-reader-streams")
+        res.count("serial-reader-timed-out-reads", sum(1 for r in port.reads if r == b""))
+        if got[0]:
+            res.distinct.add(digest(("serial", stream, tuple(len(r) for r in port.reads))))
+        if got != want:
+            res.oracle_failures.append({"key": {"kind": "serial-reader-lines-differ"},
+                                        "what": f"serial reader delivered {got!r} for a stream whose segments are {want!r} "
+                                                f"(read sizes {[len(r) for r in port.reads]})",
+                                        "replay": {"part": "serial", "stream": stream.hex(),
+                                                   "reads": [r.hex() for r in port.reads]}})
+        ops.append("TCPREAD " + " ".join(hexs(r) for r in port.reads))
+        impl.append((got, stream))
+    if driver is not None and ops:
+        try:
+            model = driver.run(ops)
+        except Exception as exc:  # noqa: BLE001
+            res.corr_diffs.append({"name": "serial-reader-driver", "case": "driver", "model": str(exc), "impl": ""})
+            model = []
+        nd = 0
+        for op, m, (got, stream) in zip(ops, model, impl):
+            f = dict(x.split("=", 1) for x in m.split(" "))
+            mbuf = b"" if f["buf"] == "e" else bytes.fromhex(f["buf"])
+            mlines = [] if f["lines"] == "-" else [bytes.fromhex(x).decode("utf-8", "replace") if x != "e" else ""
+                                                    for x in f["lines"].split("|")]
+            if (mlines, mbuf) != got:
+                nd += 1
+                if nd <= 5:
+                    res.corr_diffs.append({"name": "serial-reader", "case": {"part": "serial", "stream": stream.hex(), "reads": op[:400]},
+                                           "model": m[:300], "impl": repr(got)[:300]})
+        res.traces_validated += len(model)
+
+
 # ------------------------------------------------------------------------------------------
 # part 2: pump flavours
 # ------------------------------------------------------------------------------------------
@@ -1116,6 +1212,7 @@ def run(tier, seed, driver):
         part_tcp_reader(res, rng, tier, driver)
     except OSError as exc:
         res.count("tcp-reader skipped: " + str(exc)[:60])
+    part_serial_reader(res, rng, tier, driver)
     part_flavours(res, rng, driver, tier)
     part_end_to_end(res, rng, tier)
     res.exhaustive = False
@@ -1123,7 +1220,9 @@ def run(tier, seed, driver):
                 "invalid UTF-8, NUL, unterminated tails, unterminated noise of 101 … 8193 (thorough: 200001) bytes before "
                 "a frame with read sizes 64 … 65536; every single cut (streams <= 40 bytes), every pair of "
                 "cuts (<= 20/28 bytes), byte-by-byte, recv(120), random multi-cuts; three real protocol "
-                "classes; the real TCPTransport.run loop on a socketpair. connection events: the same streams cut into "
+                "classes; the real TCPTransport.run loop on a socketpair (peer writing while the loop runs, then closing) and pyserial's real "
+                "ReaderThread.run on a scripted port (reads of 1..200 bytes, timed-out reads), both against the model's reader loop on "
+                "the recorded read results. connection events: the same streams cut into "
                 "1..4 connections of 1..3 chunks each on ONE real protocol object per class (connection_lost with and "
                 "without an error, connection_made), against the model's two tail policies. flavours: generated histories "
                 "(versions 1.4-2.2, smart-sleep wake-ups, unknown nodes, OTA) under three pump schedules each "
@@ -1181,6 +1280,12 @@ def replay(payload):
         whole = end_to_end(r["version"], [stream], "base")
         print("equal:", got == whole)
         return 0 if got == whole else 1
+    if part == "serial":
+        print("stream:", bytes.fromhex(r["stream"]), "reads:", [bytes.fromhex(x) for x in r["reads"]])
+        print("spec  :", spec_feed(bytes.fromhex(r["stream"])))
+        print("model :", common.Driver().run(["TCPREAD " + " ".join(x or "e" for x in r["reads"])]))
+        print("re-run the check for the real reader loop (the script of reads is drawn from the seed)")
+        return 1
     if part == "tcp":
         print("re-run the check; the TCP reader case depends on socket timing only through recv sizes")
         return 0
